@@ -1,5 +1,6 @@
 """C07 — suite expansion selects, names and populates permutations per suite directives."""
 import itertools
+import re
 from ..core import Prop
 
 
@@ -29,6 +30,7 @@ REL = [(), (1,), (2,), (1, 2), (1, 1), (0, 1)]
 REL_SMALL = [(), (1,), (1, 2)]
 
 JOIN_ALPHA = ["", "a", ".", "..", "a/b", "/", "/a", "b/", "..a", "a:b", "a//b", "./a", "a/.."]
+MARKERS = ["(grpc impls)", "(grpc client impl)", "(grpc server impl)"]
 
 
 class C07(Prop):
@@ -41,41 +43,80 @@ class C07(Prop):
     packages = {"cc": "internal/app/connectconformance"}
     kinds = {"c07.lib": "cc", "c07.filter": "cc", "c07.join": "cc", "c07.marker": "cc", "c07.parse": "cc"}
     rule = ("c07.lib: TestSuite protos built from the case (every combination of relevant-list shapes x relies-on flags x "
-            "connect-version mode x suite mode x run mode on small axis sets, several test cases and stream types, suites "
-            "differing only in mode, duplicate / path-like / empty names, pre-filled runner-owned request fields) and a list of "
+            "connect-version mode x suite mode x run mode on small axis sets; random libraries of 1-4 suites with up to 16 test cases "
+            "each, EVERY library expanded in all three run modes; suites differing only in mode, duplicate / path-like / empty / "
+            "marker-bearing names, pre-filled runner-owned request fields) and a list of "
             "config cases; the real newTestCaseLibrary is called five times per case (fresh suites, three times on the same suite "
             "objects, reversed config-case list; all must agree); compared: error-or-(sorted permutations with name, simple name, "
             "version, protocol, codec, compression, stream type, server cert, client creds, service, method, receive limit, raw flags, "
             "the casesByServer key under which it is found; number of groups; sorted names of allPermutations(true,true); lengths of "
-            "the other three allPermutations). c07.filter: filterGRPCImplTestCases over the whole product protocol 0-4 x version 0-4 "
-            "x codec 0-3 x compression 0-3,6 x TLS x raw request x raw response for the four flag pairs (order compared). "
-            "c07.join: path.Join on every list of <=3 elements over 13 path-like elements + random. c07.marker: addGRPCMarkerToName. "
-            "c07.parse: parseTestSuites' mode restrictions on raw request / raw response. "
+            "the other three allPermutations; serverInstancesSlice(lib, sorted=true) IN ORDER (the unsorted slice as a set); number of "
+            "names allPermutations(true,true) issues more than once). c07.filter: filterGRPCImplTestCases over the whole product "
+            "protocol 0-4 x version 0-4 x codec 0-3 x compression 0-3,6 x TLS x raw request x raw response for the four flag pairs "
+            "(order compared). c07.join: path.Join on every list of <=3 elements over 13 path-like elements + random. c07.marker: "
+            "addGRPCMarkerToName. c07.parse: parseTestSuites' mode restrictions on raw request / raw response. "
             "non-trivial = a library was built (c07.lib) / any result (others)")
     trusted_base = ("Coq 8.16.1 kernel (vm_compute on the finite enum-name tables and in examples)",
                     "extraction (ExtrOcamlBasic only) + ocaml/driver.ml",
                     "vlib generators/comparator, Go overlay harness file (builds TestSuite messages, projects the library)",
                     "modelled not verified: Go map semantics (set of comparable structs / last-wins string map), proto.Clone, "
-                    "populateExpectedResponses (C02), protoyaml (only on the c07.parse path)")
+                    "populateExpectedResponses (C02), protoyaml (only on the c07.parse path), sort.Slice (any correct sort: the sorted "
+                    "arrangement is proved unique)")
     assumptions = ("enum numbers are non-negative (N); the differential run uses 0..7",
                    "test and suite names are ASCII in the differential run (the theorems hold for any byte strings)",
-                   "populateExpectedResponses succeeds (its errors are C02's subject; the harness builds test cases for which it cannot fail)")
+                   "populateExpectedResponses succeeds (its errors are C02's subject; the harness builds test cases for which it cannot fail)",
+                   "full_name_injective / library_grpc_names_distinct: well-formed names (suite name one segment, test names clean "
+                   "relative paths distinct within the suite, no segment a gRPC marker) and declared enum numbers in the suites' relevant "
+                   "lists (nothing is assumed of the config-case set); names_unique and colliding_names_rejected need neither")
     level_text = ("Machine-checked proof (Coq) that the model of newTestCaseLibrary/expandSuite/expandCases builds, for every list of "
                   "suites (in any map iteration order), every set of config cases and every run mode, exactly the permutations the "
                   "directives admit, with pairwise distinct names that spell exactly the open axes, request fields taken from the "
                   "config case, default service/method per stream type, each grouped under exactly its own server instance, and that "
-                  "the gRPC-peer filter equals the documented applicability predicate; the model is tied to the Go code by a "
-                  "bounded-exhaustive plus random differential run on every check.")
+                  "the gRPC-peer filter equals the documented applicability predicate. Uniqueness of the full name is proved twice: "
+                  "unconditionally through the library's duplicate check (names_unique; colliding_names_rejected: two different admitted "
+                  "(suite, case, test) triples with one name make the library fail, never merge), and constructively "
+                  "(full_name_injective: through the exact model of path.Join/Clean the name is an injective function of (suite, "
+                  "config case, test case) on well-formed names). The names of the gRPC-peer variants are proved pairwise distinct "
+                  "from each other and from all unmarked names on well-formed names; the one collision class the code does not reject "
+                  "(a name segment equal to a marker) is exhibited and counted on every run. Output order: the sorted server-instance "
+                  "slice is proved identical for every map order (and unique among sorted arrangements); allPermutations and the "
+                  "groups are proved stable as multisets only, with examples showing the lists differ. The model is tied to the Go "
+                  "code by a bounded-exhaustive plus random differential run on every check.")
     level_note = ("Trusted: Coq kernel, extraction, OCaml driver, harness; the correspondence between model and Go code is sampled "
-                  "(bounded-exhaustive on small axis sets + random), not proved. populateExpectedResponses is outside the model.")
+                  "(bounded-exhaustive on small axis sets + random), not proved. populateExpectedResponses is outside the model. "
+                  "Nothing is partial any more: components_injective is closed by C07_Join.v (path.Join injective on well-formed "
+                  "segments). Constructive injectivity assumes declared enum numbers in the suites' relevant lists (the printed form of "
+                  "undeclared numbers is not analysed); the unconditional statements do not. Observation, not listed as a finding: a test-name segment equal "
+                  "to \"(grpc server impl)\" etc. lets allPermutations issue one name for two runs (ex_marker_collision_not_rejected); "
+                  "the library's own names stay unique.")
     technique = ("Coq proof: the error-threading loops equal a pure flat_map exactly when no check fails (ok_iff), membership "
                  "characterisation of the nested loops, permutation invariance, injectivity of the name function by computation on the "
-                 "regenerated enum-name tables; differential model-vs-Go correspondence")
+                 "regenerated enum-name tables and by Clean = identity / split-after-join on well-formed segments, marker tags "
+                 "separating the four blocks of allPermutations, uniqueness of sorted arrangements under a total order; differential "
+                 "model-vs-Go correspondence")
+
+    _TWICE = re.compile(r"\) (\d+)\)\s*$")
+    _notes = None
 
     def nontrivial(self, case, res):
         if case[0] == "c07.lib":
-            return res.startswith("(#6f6b")
+            built = res.startswith("(#6f6b")
+            if built and self._notes is not None:
+                # observation, not a violation: libraries in which allPermutations(true,true) issues a name twice
+                # (possible only when a name segment is a gRPC marker: ex_marker_collision_not_rejected /
+                # library_grpc_names_distinct); the count is compared model-vs-Go like every other field and the
+                # number of such libraries is flagged in the evidence
+                m = self._TWICE.search(res)
+                if m and int(m.group(1)) > 0:
+                    self._notes["libraries_with_a_grpc_name_issued_twice"] = self._notes.get("libraries_with_a_grpc_name_issued_twice", 0) + 1
+            return built
         return True
+
+    def extra(self, ctx):
+        # evidence notes are filled in by nontrivial() (called after this hook)
+        self._notes = ctx.notes
+        ctx.notes["libraries_with_a_grpc_name_issued_twice"] = 0
+        return []
 
     def describe(self, case, g, m):
         return ("suite expansion: the real newTestCaseLibrary / filterGRPCImplTestCases / name construction differs from the "
@@ -140,6 +181,29 @@ class C07(Prop):
         yield ["c07.lib", 1, [suite("S", 1, p=(1,), get=True, cvm=c, tcs=basic_tcs) for c in (0,)] +
                [suite("V%d" % c, 0, p=(1,), cvm=c, tcs=basic_tcs) for c in (1, 2)], tiny]
         yield ["c07.lib", 0, [suite("S", 0, tcs=[tcase("t", 1)])], []]                     # nothing applies
+        # hostile names (C07_Props: ex_dot_segment_rejected, ex_slash_in_suite_name_rejected, ex_marker_collision_not_rejected)
+        fixed = dict(p=(1,), v=(2,), c=(1,), z=(1,), tls=True)
+        tlsc = [case(2, 1, 1, 1, 1, True)]
+        for other in ("./t", "x/../t", "t/", "/t", "t//", "t/."):
+            yield ["c07.lib", 1, [suite("S", 0, tcs=[tcase("t", 1), tcase(other, 1)], **fixed)], tlsc]     # Clean merges -> rejected
+        yield ["c07.lib", 1, [suite("A", 0, tcs=[tcase("b/c", 1)], **fixed), suite("A/b", 0, tcs=[tcase("c", 1)], **fixed)], tlsc]
+        yield ["c07.lib", 1, [suite("A", 0, tcs=[tcase("b/c", 1)], **fixed)], tlsc]
+        yield ["c07.lib", 1, [suite("A", 0, p=(1,), v=(2,), c=(1,), z=(1,), tcs=[tcase("t", 1)]),
+                              suite("A/TLS:true", 0, tcs=[tcase("t", 1)], **fixed)], tlsc]                 # axis text in a suite name
+        grpcc = [case(2, 2, 1, 1, 1), case(2, 3, 1, 2, 1), case(1, 3, 1, 1, 1), case(2, 2, 1, 1, 3)]
+        for mk in MARKERS:
+            # a marker as a test-name segment / as the suite name: built, but allPermutations issues a name twice
+            yield ["c07.lib", 1, [suite("S", 0, p=(2, 3), c=(1,), tcs=[tcase("t", 1), tcase(mk + "/t", 1), tcase("u/" + mk + "/t", 1),
+                                                                        tcase("u/t", 1), tcase(mk, 3)])], grpcc]
+            yield ["c07.lib", 2, [suite("S", 0, p=(2,), v=(2,), c=(1,), z=(1,), tls=False, tcs=[tcase("t", 1)]),
+                                  suite("S/TLS:false", 0, p=(2,), v=(2,), c=(1,), z=(1,), tcs=[tcase("(x)/t", 1)]),
+                                  suite(mk, 0, p=(2,), v=(2,), c=(1,), z=(1,), tcs=[tcase("t", 1)])], grpcc]
+        # many server instances (the sorted slice): open suites, one relying on client certs
+        wide = product_cases((1, 2, 3), (1, 2, 3), (1,), (1,), (1, 3), TLSCERTS, (False,), (False,))
+        for rm in (0, 1, 2):
+            yield ["c07.lib", rm, [suite("Open", 0, tcs=basic_tcs), suite("Certs", 0, tls=True, certs=True, tcs=basic_tcs),
+                                   suite("Server only", 2, tls=True, tcs=[tcase("raw", 1, rawreq=True)]),
+                                   suite("Client only", 1, v=(3,), tcs=[tcase("rr", 3, rawresp=True)])], wide]
 
         # (b) every combination of directive shapes on one suite (sampled in the quick tier)
         def misconfigured(p, tls, certs, get, cvm):
@@ -173,9 +237,12 @@ class C07(Prop):
         for m1, m2, rm in itertools.product(range(4), range(4), range(4)):
             yield ["c07.lib", rm, [suite("A", m1, p=(1,), tcs=[tcase("t", 1)]), suite("B", m2, v=(2,), tcs=[tcase("t", 3)])], small]
 
-        # (d) random libraries
-        names = ["S", "S", "T", "S/x", "A", "A/b", "..", "a/../S", "", "/S", "S/", ".", "U V", "T:1"]
-        tnames = ["t", "t", "u", "u/v", "b/c", "c", "", ".", "../t", "x/", "/t", "t//w", "TLS:true/t", "HTTPVersion:1"]
+        # (d) random libraries; every library is expanded in all three run modes
+        names = ["S", "S", "T", "S/x", "A", "A/b", "..", "a/../S", "", "/S", "S/", ".", "U V", "T:1", "A/TLS:true"] + MARKERS
+        tnames = ["t", "t", "u", "u/v", "b/c", "c", "", ".", "../t", "x/", "/t", "t//w", "TLS:true/t", "HTTPVersion:1", "./t", "u/./v",
+                  "(grpc impls)/t", "(grpc client impl)/u", "(grpc server impl)/t", "u/(grpc server impl)/v", "(grpc server impl)"]
+        clean_tnames = ["t", "u", "v", "w/x", "b/c", "c", "unary/success", "unary/error", "server-stream/success", "bidi/half/cancel",
+                        "x.y", "..z", "a:b", "TLS:true/t", "Codec:CODEC_PROTO/u", "(grpc)/t", "grpc impls", "w/y", "w/z/0", "w/z/1"]
 
         def rnd_rel(hi, clean=False):
             k = rng.choice([0, 0, 1, 1, 2, 3])
@@ -193,10 +260,10 @@ class C07(Prop):
                 svc, meth = rng.choice([("", ""), ("", ""), ("svc.X", "M")])
             else:
                 svc, meth = rng.choice([("svc.X", ""), ("", "M")])
-            nm = rng.choice(["t", "u", "v", "w/x", "b/c", "c"]) if clean else rng.choice(tnames)
+            nm = rng.choice(clean_tnames) if clean else rng.choice(tnames)
             return tcase(nm, st, svc, meth, rng.random() < 0.15, rng.random() < 0.15, rng.random() < 0.2)
 
-        def rnd_suite(i, clean):
+        def rnd_suite(i, clean, big):
             tls = rng.random() < 0.3
             certs = tls and rng.random() < 0.4 if clean or rng.random() < 0.9 else rng.random() < 0.5
             p = rnd_rel(3, clean)
@@ -204,10 +271,13 @@ class C07(Prop):
             cvm = rng.choice([0, 0, 0, 0, 1, 2]) if clean or rng.random() < 0.95 else 3
             if clean and (get or cvm):
                 p = [1]
-            n = rng.choice(["S", "T", "A", "A/b", "U V"]) if clean else rng.choice(names)
+            n = rng.choice(["S", "T", "A", "A.b", "U V", "TLS:true", "Basic"]) if clean else rng.choice(names)
             if clean:
                 n = "%s%d" % (n, i)
-            k = rng.choice([1, 1, 2, 3, 5]) if clean or rng.random() < 0.95 else 0
+            if big:
+                k = rng.randrange(6, 17)
+            else:
+                k = rng.choice([1, 1, 2, 3, 5]) if clean or rng.random() < 0.95 else 0
             tcs = [rnd_tcase(clean) for _ in range(k)]
             if clean:
                 seen = set()
@@ -250,19 +320,42 @@ class C07(Prop):
                 base = base + [case(rng.randrange(0, 5), rng.randrange(0, 5), rng.randrange(0, 5), 7, rng.choice([0, 6]))]
             return base
 
-        for _ in range(4000 if quick else 60000):
-            clean = rng.random() < 0.75
-            k = rng.choice([1, 1, 2, 2, 3, 4])
-            ss = [rnd_suite(i, clean) for i in range(k)]
+        def rnd_library(big):
+            clean = rng.random() < (0.85 if big else 0.75)
+            k = rng.choice([3, 3, 4, 4, 2]) if big else rng.choice([1, 1, 2, 2, 3, 4])
+            ss = [rnd_suite(i, clean, big and rng.random() < 0.7) for i in range(k)]
             cs = rnd_cases()
             for s in ss:
                 if rng.random() < 0.7:
                     cs = cs + derived_cases(s)
             rng.shuffle(cs)
-            rmode = rng.choice([0, 1, 1, 2, 2]) if rng.random() < 0.97 else 3
-            if clean and rng.random() < 0.6:
-                rmode = rng.choice([s[1] for s in ss]) or rmode
-            yield ["c07.lib", rmode, ss, cs]
+            return ss, cs
+
+        # (e) gRPC-eligible libraries whose test names carry marker text as a segment or inside one: the only
+        # collisions the library does not reject (last field of the result = names issued twice)
+        for _ in range(60 if quick else 1500):
+            mk = rng.choice(MARKERS)
+            pool = ["t", "u", "u/t", mk + "/t", mk + "/u", "u/" + mk + "/t", mk, "x" + mk + "/t", mk + "x/t", mk + "/" + mk + "/t", "v"]
+            chosen = rng.sample(pool, rng.randrange(2, 7))
+            if rng.random() < 0.5:
+                chosen = list(dict.fromkeys(chosen + ["t", mk + "/t"]))
+            tcs = [tcase(nm, rng.choice([1, 1, 1, 3])) for nm in chosen]
+            ss = [suite(rng.choice(["S", "G", mk]), rng.choice([0, 0, 1, 2]), p=rng.choice([(2,), (2, 3), (), (3,)]), v=rng.choice([(), (2,), (1, 2)]),
+                        c=rng.choice([(1,), ()]), z=rng.choice([(), (1,), (1, 2)]), tcs=tcs)]
+            if rng.random() < 0.4:
+                ss.append(suite("S/TLS:false", 0, p=(2,), v=(2,), c=(1,), z=(1,), tcs=[tcase(rng.choice(pool), 1)]))
+            cs = product_cases((1, 2), (2, 3), (1, 2), (1, 2), (1, 3), [(False, False), (True, False)], (False,), (False,))
+            cs = rng.sample(cs, rng.randrange(4, len(cs)))
+            for rmode in (1, 2, 0):
+                yield ["c07.lib", rmode, ss, cs]
+
+        for n, big in ((1300 if quick else 14000, False), (700 if quick else 4000, True)):
+            for _ in range(n):
+                ss, cs = rnd_library(big)
+                for rmode in (1, 2, 0):
+                    yield ["c07.lib", rmode, ss, cs]
+                if rng.random() < 0.03:
+                    yield ["c07.lib", 3, ss, cs]
 
 
 PROP = C07()
